@@ -7,6 +7,7 @@ Loops are cut at the invariants supplied by the contract (init / step / exit),
 calls to functions under contract are replaced by the callee's contract.
 """
 import ast
+import re
 import z3
 
 from pyvc import sym
@@ -155,6 +156,15 @@ class Path:
     if z3.is_true(e):
       return
     self.hyps.append(e)
+    # quantifier-free literals / conjunctions are also remembered as decided facts, so that a
+    # branch a precondition rules out is not explored (it would only produce obligations with
+    # contradictory hypotheses, or fall out of the subset for no reason)
+    if not z3.is_quantifier(e):
+      s = z3.simplify(e)
+      if not z3.is_quantifier(s) and (z3.is_not(s) or z3.is_and(s) or
+                                      (z3.is_app(s) and s.num_args() <= 2)):
+        if self._known(s) is None:
+          self._learn(s, True)
 
   def _known(self, e):
     """Syntactic lookup of e among the facts decided so far: True/False/None."""
@@ -268,6 +278,24 @@ class Frame:
     self.globals_declared = globals_declared or set()
     self.closure = closure or {}
     self.fname = qual.split('::')[0]
+
+
+def _is_lambda(e):
+  return z3.is_quantifier(e) and e.is_lambda()
+
+
+_REV = re.compile(r'([A-Za-z_][\w.]*)\[::-1\]')
+_LEN_POS = re.compile(r'^len\(([A-Za-z_][\w.]*)\) (?:> 0|!= 0|>= 1)$')
+
+
+def _loop_key(text):
+  """Normal form of a loop header used to find its invariant: spellings that denote the same
+  iteration are identified (x[::-1] / reversed(x); `while xs` / `while len(xs) > 0`)."""
+  text = _REV.sub(r'reversed(\1)', text)
+  m = _LEN_POS.match(text)
+  if m:
+    text = m.group(1)
+  return text
 
 
 class Executor:
@@ -928,7 +956,7 @@ class Executor:
       if isinstance(key, tuple):
         it_text, frag = key
         src = ast.unparse(s.iter) if isinstance(s, ast.For) else ast.unparse(s.test)
-        if src == it_text and (frag is None or
+        if _loop_key(src) == _loop_key(it_text) and (frag is None or
                                any(frag in ast.unparse(b) for b in s.body)):
           return spec
     return self.contract.loops.get(n)
@@ -1629,7 +1657,10 @@ class Executor:
         self.oos(f'slice of {obj!r}', node)
       if step is not None:
         if step.concrete() == -1 and lo is None and hi is None:
-          return obj.reversed()
+          out = obj.reversed()
+          if _is_lambda(out.arr):
+            out = VList(out.kind, out.len, self.world.name_array(self, out.arr, 'rev'))
+          return out
         self.oos('slice step', node)
       r = obj
       if hi is not None:
@@ -1683,8 +1714,13 @@ class Executor:
     self.oos(f'subscript of {obj!r}', node)
 
   def list_suffix(self, r, lo, orig):
-    """r[lo:] where r is a prefix view of orig (same array)."""
-    return r.suffix(lo)
+    """r[lo:] where r is a prefix view of orig (same array).  A symbolic suffix is an index-
+    shifted view; it is given a name (constant + pointwise definition) because lambda terms
+    inside other terms leave nothing to trigger on and have crashed z3."""
+    out = r.suffix(lo)
+    if _is_lambda(out.arr):
+      out = VList(out.kind, out.len, self.world.name_array(self, out.arr, 'suffix'))
+    return out
 
   def dict_read(self, d, key):
     """Reads d[key]; for dict-valued dicts the result is a write-through borrow."""
